@@ -53,6 +53,8 @@ def eval_side(monitor, f, data, n, hist=None):
     if monitor == "offd":
         o = impl.eval_offline_discrete(text, vs, data, n)
         return o if o[0] != "ok" else ("ok", [p[1] for p in o[1]])
+    if monitor == "past":
+        return impl.run_online_discrete(text, vs, data, n, pastify=True)
     if monitor == "ond-reset" and hist:
         # the monitor object is reused: a history, reset(), then the trace
         def go():
@@ -89,12 +91,22 @@ def check_instance(ctx, monitor, name, lhs, rhs, data, n, hist=None):
 
 def explore(ctx, rng, count):
     for _ in range(count):
-        monitor = rng.choice(["offd", "offd", "ond", "ond-reset"])
+        monitor = rng.choice(["offd", "offd", "ond", "ond-reset", "past"])
         past = monitor != "offd"
         allow = F.PAST_ONLY - {"fn", "iffxor"} if past else F.ALL_DISCRETE_OFFLINE - {"fn", "iffxor"}
         g = F.Gen(rng, VARS, allow, max_bound=rng.choice([1, 2, 3, 4]))
         n = rng.choice([1, 2, 3]) if rng.random() < 0.2 else rng.randint(2, 12)
         for name, lhs, rhs in laws(rng, g, past):
+            if monitor == "past":
+                # both sides next to the same bounded-future sibling, monitored after pastify(): the two pastified monitors are
+                # delayed by the same horizon and must return the same values
+                k_ = rng.randint(1, 3)
+                sib = ("tb1", rng.choice(["ev", "alw"]), rng.randint(0, 1), k_ + 1, g.formula(0))
+                op_ = rng.choice(["and", "or", "implies"])
+                if rng.random() < 0.5:
+                    lhs, rhs = ("b", op_, lhs, sib), ("b", op_, rhs, sib)
+                else:
+                    lhs, rhs = ("b", op_, sib, lhs), ("b", op_, sib, rhs)
             vs = sorted(set(F.variables(lhs)) | set(F.variables(rhs))) or ["a"]
             data = F.gen_trace(rng, vs, n)
             hist = F.gen_trace(rng, vs, rng.randint(1, 5)) if monitor == "ond-reset" else None
